@@ -130,9 +130,8 @@ func (tm *typesMap) SetFuncName(funcName string, typs ...types.Type) (string, er
 		return "", fmt.Errorf("ambigious function names for type %s = (%s | %s)", typs, fName, funcName)
 	}
 	if ts, ok := tm.funcToTyps[funcName]; ok {
-		if eq(ts, typs) {
-			return funcName, nil
-		}
+		// The function of this name cannot be called with these types, or nameOf would have found it.
+		// That its own types could be passed where these are expected, a chan int for a <-chan int, is of no use to this call.
 		if tm.autoname {
 			name := tm.GetFuncName(typs...)
 			tm.autonamed[name] = funcName
